@@ -116,12 +116,54 @@ def ev_method(rel, f, lits):
     return "EvBinary {} {} {}".format(op, first, defer)
 
 
-def arr_method(rel, f):
+def operand_helpers(tree):
+    """names of module-level functions of the form
+         def h(x):
+             if isinstance(x, ARRAY_TYPES):
+                 return x
+             return dut.wrap_in_experimental_value(x)
+    i.e. exactly the conditional of the recognised method shape, moved into a helper"""
+    names = set()
+    for f in tree.body:
+        if not isinstance(f, ast.FunctionDef) or f.decorator_list:
+            continue
+        args = [a.arg for a in f.args.args]
+        if len(args) != 1 or f.args.vararg or f.args.kwarg or f.args.defaults or f.args.kwonlyargs:
+            continue
+        x = args[0]
+        body = strip_doc(f.body)
+        if len(body) == 2 and isinstance(body[0], ast.If) and is_array_test(body[0].test, x) and not body[0].orelse \
+                and len(body[0].body) == 1 and ast.unparse(body[0].body[0]) == "return " + x \
+                and ast.unparse(body[1]) == "return {}({})".format(WRAP, x):
+            names.add(f.name)
+    # a helper that is rebound anywhere else in the module would not be what its definition says
+    for n in ast.walk(tree):
+        if isinstance(n, (ast.Assign, ast.AugAssign, ast.AnnAssign)):
+            targets = n.targets if isinstance(n, ast.Assign) else [n.target]
+            for t in targets:
+                if isinstance(t, ast.Name) and t.id in names:
+                    names.discard(t.id)
+        if isinstance(n, ast.Global) and set(n.names) & names:
+            names -= set(n.names)
+    defs = [f.name for f in ast.walk(tree) if isinstance(f, (ast.FunctionDef, ast.ClassDef))]
+    return {h for h in names if defs.count(h) == 1}
+
+
+def arr_method(rel, f, helpers=()):
     args = [a.arg for a in f.args.args]
     if f.decorator_list or len(args) != 2 or args[0] != "self" or f.args.vararg or f.args.kwarg or f.args.defaults:
         raise TranslateError(rel, f, f.name + ": signature / decorators")
     other = args[1]
     body = strip_doc(f.body)
+    # the conditional moved into a recognised helper:  return super().__op__(helper(other))
+    if len(body) == 1 and isinstance(body[0], ast.Return) and isinstance(body[0].value, ast.Call):
+        call = body[0].value
+        if isinstance(call.func, ast.Attribute) and ast.unparse(call.func.value) == "super()" \
+                and call.func.attr in DUNDERS and not call.keywords and len(call.args) == 1 \
+                and isinstance(call.args[0], ast.Call) and isinstance(call.args[0].func, ast.Name) \
+                and call.args[0].func.id in helpers and not call.args[0].keywords \
+                and [ast.unparse(a) for a in call.args[0].args] == [other]:
+            return "ArrDelegate {} true".format(dname(call.func.attr))
     if len(body) != 2 or not (isinstance(body[0], ast.If) and is_array_test(body[0].test, other)
                               and not body[0].orelse and len(body[0].body) == 1):
         raise TranslateError(rel, f, f.name + ": not 'if isinstance(other, ARRAY_TYPES): ...; return ...'")
@@ -290,10 +332,11 @@ def gen_overloads(repo):
     tree = parse(repo, rel)
     check_array_types(rel, tree)
     ms = methods(find_class(tree, "ExperimentalValueArray", rel))
+    helpers = operand_helpers(tree)
     out.append("Definition arr_overload (d : dunder) : arr_shape :=\n  match d with")
     for d in DUNDERS:
         if d in ms:
-            out.append("  | {} => {}".format(dname(d), arr_method(rel, ms[d])))
+            out.append("  | {} => {}".format(dname(d), arr_method(rel, ms[d], helpers)))
         elif d == "__neg__":
             out.append("  | {} => ArrInherited".format(dname(d)))
         else:
